@@ -499,9 +499,15 @@ def fmt_atom(k: t.Tuple[str, ...]) -> str:
     return f"GUARDED[{k[1]} under except {k[2]}]"
 
 
-def rule_c03_r1(model: Model) -> RuleResult:
-    r = RuleResult('C03-R1', 'verdict atoms of try_convert and collect_errors agree, per Converter class', floor=18)
+def rule_c03_r1_for(model: Model, class_names: t.Sequence[str]) -> RuleResult:
+    return rule_c03_r1(model, class_names)
+
+
+def rule_c03_r1(model: Model, only: t.Optional[t.Sequence[str]] = None) -> RuleResult:
+    r = RuleResult('C03-R1', 'verdict atoms of try_convert and collect_errors agree, per Converter class', floor=18 if only is None else len(only))
     for cls in family(model):
+        if only is not None and cls.name not in only:
+            continue
         et, ec = extract_pair(model, cls)
         r.instances += 1
         r.analysed.update(et.functions)
